@@ -184,6 +184,8 @@ enum Op {
     X(usize, u64),
     T(u64),
     F(u64),
+    /// persist_flushed_seq(next_seq()): the mark names the entry that is written next
+    FN,
     G(u64, u64),
     C,
     K(u64),
@@ -202,6 +204,7 @@ fn enc_op(o: &Op) -> String {
         Op::X(i, k) => format!("X {} {}", i, k),
         Op::T(b) => format!("T {}", b),
         Op::F(x) => format!("F {}", x),
+        Op::FN => "FN".into(),
         Op::G(x, k) => format!("G {} {}", x, k),
         Op::C => "C".into(),
         Op::K(n) => format!("K {}", n),
@@ -230,6 +233,7 @@ fn decode_ops(s: &str) -> Vec<Op> {
                 "X" => Op::X(p(1) as usize, p(2)),
                 "T" => Op::T(p(1)),
                 "F" => Op::F(p(1)),
+                "FN" => Op::FN,
                 "G" => Op::G(p(1), p(2)),
                 "C" => Op::C,
                 "K" => Op::K(p(1)),
@@ -295,6 +299,8 @@ struct Oracle {
     max_bound: u64,
     max_acked: u64,
     max_mark: u64,
+    /// flushed mark that was on disk when the current handle was opened
+    mark_at_open: u64,
     disciplined: bool,
     /// false once a fault outside the crash model hit a byte the format does
     /// not protect (sequence number / length field): the recovered list is then
@@ -305,7 +311,7 @@ struct Oracle {
 
 impl Oracle {
     fn new() -> Self {
-        Oracle { entries: Vec::new(), newest_seg: None, max_bound: 0, max_acked: 0, max_mark: 0, disciplined: true, exact: true, failures: Vec::new() }
+        Oracle { entries: Vec::new(), newest_seg: None, max_bound: 0, max_acked: 0, max_mark: 0, mark_at_open: 0, disciplined: true, exact: true, failures: Vec::new() }
     }
     fn sync_newest(&mut self, dir: &Path) {
         let newest = seg_files(dir).last().map(|x| x.0);
@@ -407,6 +413,12 @@ impl<'a> Impl<'a> {
     }
 
     fn check_new_seq(&mut self, at: usize, s: u64, fl_before: u64) {
+        // unconditional: above the mark that was on disk when this handle was opened
+        if s <= self.or.mark_at_open {
+            self.or.failures.push(format!(
+                "op {}: append was given sequence number {} although the flushed_seq file recorded {} as flushed when the log was opened",
+                at, s, self.or.mark_at_open));
+        }
         if !self.or.disciplined {
             return;
         }
@@ -441,6 +453,20 @@ impl<'a> Impl<'a> {
                         self.wal = Some(w);
                         self.or.sync_newest(&dirp);
                         self.check_recovery(at);
+                        // unconditional: open never starts at or below the mark that is on disk,
+                        // nor at or below an entry it has just recovered
+                        let mark_now = flushed_on_disk(&dirp);
+                        self.or.mark_at_open = mark_now;
+                        if next <= mark_now {
+                            self.or.failures.push(format!("op {}: next_seq after open is {} although the flushed_seq file on disk records {} as flushed", at, next, mark_now));
+                        }
+                        if self.or.exact {
+                            if let Some((last, _)) = self.or.entries.last() {
+                                if next <= last.seq {
+                                    self.or.failures.push(format!("op {}: next_seq after open is {} although the completely written entry {} was just recovered", at, next, last.seq));
+                                }
+                            }
+                        }
                         if self.or.disciplined {
                             let floor = self.or.max_acked.max(self.or.max_mark).max(flushed_on_disk(&dirp));
                             if next <= floor {
@@ -507,6 +533,15 @@ impl<'a> Impl<'a> {
                     Ok(Ok(())) => "t".into(),
                     Ok(Err(e)) => format!("t:ERR {}", e),
                     Err(_) => "t:PANIC".into(),
+                }
+            }
+            Op::FN => {
+                let Some(w) = self.wal.as_ref() else { return "f:-".into() };
+                let x = w.next_seq();
+                self.or.disciplined = false; // the mark names an entry that is not in the log yet
+                match persist_flushed_seq(&dirp, x) {
+                    Ok(()) => "f".into(),
+                    Err(_) => "f:ERR".into(),
                 }
             }
             Op::F(x) | Op::G(x, _) => {
@@ -784,7 +819,7 @@ fn gen_case(rng: &mut Rng, pool: &Pool, report: &mut Report) -> Vec<Op> {
                 }
                 up = false;
             }
-        } else if r < 77 {
+        } else if r < 76 {
             // crash between truncate and persist: the mark on disk stays old
             if last_seq_guess > 0 {
                 ops.push(Op::T(last_seq_guess));
@@ -792,6 +827,15 @@ fn gen_case(rng: &mut Rng, pool: &Pool, report: &mut Report) -> Vec<Op> {
             }
             ops.push(Op::C);
             up = false;
+        } else if r < 80 {
+            // the mark is persisted for the entry whose write is then torn (flushed file new, log old)
+            let i = rng.below(np as u64) as usize;
+            let full = entry_size(pool, i);
+            ops.push(Op::FN);
+            ops.push(Op::X(i, rng.below(full)));
+            fl_guess = last_seq_guess + 1;
+            up = false;
+            report.bump("flushed_file.new_while_log_old");
         } else if r < 82 {
             ops.push(Op::C);
             up = false;
@@ -964,6 +1008,11 @@ fn corpus(pool: &Pool) -> Vec<Vec<Op>> {
         vec![Op::O(1 << 20), Op::A(1), Op::A(1), Op::B(5, 1), Op::O(1 << 20), Op::R, Op::N, Op::A(1), Op::R],
         vec![Op::O(1 << 20), Op::A(1), Op::A(1), Op::B(e + 19, 0x80), Op::O(1 << 20), Op::R, Op::N],
         vec![Op::O(1 << 20), Op::A(1), Op::A(1), Op::B(e + HEADER_LEN + 7, 0xff), Op::O(1 << 20), Op::R, Op::N, Op::A(1), Op::C, Op::O(1 << 20), Op::R],
+        // the flushed file already names entry N while the write of entry N was torn:
+        // the log ends BELOW the mark, numbering must continue above the mark
+        vec![Op::O(1 << 20), Op::A(1), Op::A(1), Op::FN, Op::X(1, 10), Op::L, Op::O(1 << 20), Op::N, Op::R, Op::A(1), Op::C, Op::O(1 << 20), Op::R, Op::N],
+        vec![Op::O(1 << 20), Op::A(1), Op::A(1), Op::A(1), Op::T(3), Op::F(3), Op::C, Op::K(2 * e + 300), Op::L, Op::O(1 << 20), Op::N, Op::R, Op::A(1), Op::R],
+        vec![Op::O(e + 1), Op::A(1), Op::A(1), Op::FN, Op::X(1, 0), Op::O(e + 1), Op::N, Op::T(4), Op::S, Op::A(1), Op::C, Op::O(e + 1), Op::N, Op::R],
         // the u64 end of the sequence space (debug build: arithmetic overflow panics, nothing is written)
         vec![Op::F(u64::MAX), Op::O(1 << 20), Op::N, Op::S, Op::L],
         vec![Op::F(u64::MAX - 1), Op::O(1 << 20), Op::N, Op::A(1), Op::N, Op::R, Op::S],
